@@ -152,7 +152,16 @@ def dilate(mask2d, b):
 
 
 def one_dataset(obs, rng, conv, spec):
-    model = make(rng, conv)
+    if conv == 'ugrid' and rng.random() < 0.2:
+        # one-based tables whose "no element" number is 0, kept as plain integers with a _FillValue attribute (built in
+        # memory / opened without masking): under the mask sits a number that is a valid node once the base is removed
+        model = make(rng, conv, start_index=1, fill='int_fill')
+        for table in model.encoding['tables'].values():
+            table['fill_value'] = 0
+            table.pop('fill_tight', None)
+        obs.cls('ugrid:one-based-tables-with-fill-value-0')
+    else:
+        model = make(rng, conv)
     ds = model.encode()
     with quiet_warnings():
         ems = obs.call('dataset.ems', lambda: ds.ems)
